@@ -60,7 +60,7 @@ Negotiate(scn) ==
 IsPassThru(scn, srv) ==
     /\ ProtoOf(scn.cl.form) = srv.proto
     /\ ClientCodec(scn.cl) = srv.codec
-    /\ scn.cl.comp = srv.comp
+    /\ NormComp(scn.cl.comp) = srv.comp
 
 (***************************************************************************)
 (* operation.handle(): choice of the request adapter.                      *)
@@ -82,7 +82,7 @@ ReqAdapter(scn, srv) ==
         ce == Enveloped(scn.cl.form)
         se == Enveloped(srv.form)
     IN CASE skipBody -> "R0-drain"
-         [] scn.cl.comp = srv.comp /\ sameCodec /\ ~mustDecode ->
+         [] NormComp(scn.cl.comp) = srv.comp /\ sameCodec /\ ~mustDecode ->
               (CASE ~ce /\ ~se -> "R1-pass"
                  [] ~ce /\ se -> (IF scn.cl.clen = "" THEN "R3-measure" ELSE "R2-synth")
                  [] ce /\ se -> "R4-reframe"
@@ -97,10 +97,10 @@ ReqAdapter(scn, srv) ==
 (* Every client frame becomes one backend frame record.                    *)
 (***************************************************************************)
 \* was the message compressed on the client leg?
-WasCompressed(scn, f) == IF Enveloped(scn.cl.form) THEN f.z ELSE scn.cl.comp # ""
+WasCompressed(scn, f) == IF Enveloped(scn.cl.form) THEN f.z ELSE NormComp(scn.cl.comp) # ""
 
 BackendFrame(scn, srv, f) ==
-    LET wc == WasCompressed(scn, f) /\ scn.cl.comp # ""
+    LET wc == WasCompressed(scn, f) /\ NormComp(scn.cl.comp) # ""
         kept == wc /\ srv.comp # ""            \* stays / becomes compressed toward the backend
     IN IF Enveloped(srv.form)
        THEN [id |-> f.m, declz |-> kept, form |-> IF kept THEN srv.comp ELSE "raw", flags |-> IF kept THEN 1 ELSE 0]
@@ -262,7 +262,7 @@ PredictCore(scn) ==
 
 \* (the model's outcome does not depend on chunking at all: it has no notion of it at this grain;
 \*  the byte-grain model Framing.tla establishes that independence)
-Predict(scn) == LET p == PredictCore(scn) IN [disp |-> p.disp, ret |-> p.ret, cl |-> p.cl, ref |-> NoRef, maxget |-> 0]
+Predict(scn) == LET p == PredictCore(scn) IN [disp |-> p.disp, ret |-> p.ret, cl |-> p.cl, ref |-> NoRef, maxget |-> 0, pool |-> <<>>]
 
 (***************************************************************************)
 (* Conformance of a recorded observation with the model's prediction.      *)
